@@ -459,6 +459,36 @@ func oracle(c *lib.Ctx, r *lib.RNG) []lib.OracleFail {
 				"warm-up history: "+strings.Join(hist, " ; ")+"\nprobe: "+ps[probe].name)
 		}
 	}
+	// failed compiles: target types no compiler supports (channels, funcs, structs holding them) decoded
+	// MANY times on one fresh assembler, then pairs of the pool whose type that assembler sees for the first
+	// time – seeded change c17f leaked one unit of a compile-depth budget per failed compile, so that a cold
+	// type answered "unsupported type" after ~30 failures
+	{
+		type withChan struct {
+			A int      `json:"a"`
+			C chan int `json:"c"`
+		}
+		bad := []reflect.Type{reflect.TypeOf((*chan int)(nil)), reflect.TypeOf((*func())(nil)), reflect.TypeOf((*withChan)(nil)),
+			reflect.TypeOf((*map[string]chan int)(nil)), reflect.TypeOf((*[]func())(nil))}
+		for k := 0; k < c.Scale(6, 60); k++ {
+			dec := types.VerifNewDecoder()
+			n := r.Range(20, 80)
+			for j := 0; j < n; j++ {
+				bt := lib.Pick(r, bad)
+				_ = decodeOnce(dec, pair{name: "bad", val: func() types.Value { return types.NewMap(types.NewString("a"), types.NewInt(1)) }, typ: bt})
+			}
+			for j := 0; j < 40; j++ {
+				w := r.Intn(len(ps))
+				got := decodeOnce(dec, ps[w])
+				c.Count("")
+				if got != cold[w] {
+					add("history-dependent-decode", fmt.Sprintf("%s: cold=%q, after %d failed decodes into unsupported target types=%q", ps[w].name, cold[w], n, got),
+						fmt.Sprintf("fresh assembler; %d decodes of {a:1} into chan/func/struct-with-chan targets (all fail); then %s", n, ps[w].name))
+				}
+			}
+			c.Hit("oracle-failed-compiles")
+		}
+	}
 	// concurrent: many goroutines on one fresh assembler
 	crounds := c.Scale(4, 40)
 	for k := 0; k < crounds; k++ {
